@@ -9,3 +9,8 @@ claim("C07",
       "For every schedule and every number of clients: all Range callbacks and recipient loops in pkg/agent visit every entry; a hand-over happens only on the recipient-test edge; each load-then-store/delete of the REST mailbox lies in one exclusive lock region and all mailbox writes hold that lock; dispatching delivers xor forwards; delivery is reported / the constraint released only on Deliver()==nil. These are CFG/lockset facts, so they hold for all interleavings the tests cannot enumerate.",
       "Not decided: exactly-once as a whole over register/unregister/fetch histories; content equality; WebSocket write failures.",
       "DESIGN.md §3 C07")
+claim("C16",
+      "sign/typestate rule over all writers of convergenceElem.ttl (resolved by go/types), lockset, guarded-call dominance, complete-iteration on sync.Map.Range",
+      "Decides the representation invariant 'ttl<0 iff the last Start succeeded and stop channels exist' for every path: each writer of ttl is classified (negative only on Start()==nil together with channel creation and handler start; decrement only when positive; other stores non-negative, interprocedurally through parameters), and the registry wiring (forget only on !successful&&!retry, single instance, deactivate before delete, close-once guard, Restart order, listing only active). Quantifies over all operation sequences because every transition's code is covered, not sampled traces.",
+      "Not decided: reference-state-machine trace equivalence as a whole, deadlock freedom, the isActive()/deactivate race outside the mutex.",
+      "DESIGN.md §3 C16")
